@@ -244,6 +244,13 @@ func (o *objectGoReflect) elemToValue(ev reflect.Value) (Value, reflectValueWrap
 		return _null, nil
 	}
 
+	switch ev.Kind() {
+	case reflect.Map, reflect.Ptr:
+		// maps and pointers are references: the returned value wraps what the slot holds now,
+		// not the slot (which may be pointed at another map or object later)
+		return o.val.runtime.toValue(ev.Interface(), reflect.Value{}), nil
+	}
+
 	return o.val.runtime.toValue(ev.Interface(), ev), nil
 }
 
